@@ -119,6 +119,15 @@ pub fn check_table(r: &mut Report, rng: &mut Rng, uni: &[N], feat: u64, targets:
     for n in uni {
         table.add(Node::new(Id::from(n.0), n.1));
     }
+    let mut targets: Vec<[u8; 20]> = targets.to_vec();
+    targets.push(table_id);
+    if let Some(m) = uni.first() {
+        targets.push(m.0);
+    }
+    // every target is asked once before the table changes (an answer remembered from now would be stale later)
+    for t in &targets {
+        let _ = table.closest(Id::from(*t));
+    }
     // a lived-in table: members removed (whole buckets emptied), 16+ minutes pass, some members are
     // refreshed and new nodes arrive (stale heads of full buckets are evicted), before it is asked
     let mut churned = false;
@@ -156,16 +165,38 @@ pub fn check_table(r: &mut Report, rng: &mut Rng, uni: &[N], feat: u64, targets:
         }
         r.count("churned_tables");
     }
+    // replacement at constant size: one member leaves, newcomers are tried until the size is what it was
+    if rng.chance(1, 2) && !uni.is_empty() {
+        let before = table.size();
+        let victim = dht::verif::table_snapshot(&table).bucket_nodes.first().map(|n| n.0);
+        if let Some(v) = victim {
+            // the target asked last before the change is the one asked first after it
+            let k = rng.usize(targets.len());
+            targets.swap(0, k);
+            let _ = table.closest(Id::from(targets[0]));
+            table.remove(&v);
+            for _ in 0..40 {
+                if table.size() >= before {
+                    break;
+                }
+                let mut id: [u8; 20] = rng.array();
+                if rng.bool() {
+                    // next to that target, so that it belongs into the answer
+                    id = targets[0];
+                    id[19] ^= 1 + rng.usize(200) as u8;
+                }
+                table.add(Node::new(Id::from(id), SocketAddrV4::new(pub_ip(rng), 6881)));
+            }
+            if table.size() == before {
+                r.count("tables_with_member_replaced_at_constant_size");
+            }
+        }
+    }
     // ground truth read bucket by bucket through the hook, not through the table's own iterator
     let members: Vec<N> = dht::verif::table_snapshot(&table).bucket_nodes.iter().map(|n| (*n.0.as_bytes(), n.1)).collect();
     let iterated: Vec<N> = table.nodes().map(|n| to_n(&n)).collect();
     if iterated != members {
         r.violation("table/iteration-differs-from-buckets", "RoutingTable::nodes() does not walk exactly the nodes held in the buckets", json!({"class":"table","case":case_id,"table_id":crate::bencode::hex(&table_id),"churned":churned,"universe": uni.iter().map(show).collect::<Vec<_>>()}), json!({"iterated": iterated.len(), "in_buckets": members.len()}));
-    }
-    let mut targets: Vec<[u8; 20]> = targets.to_vec();
-    targets.push(table_id);
-    if let Some(m) = members.first() {
-        targets.push(m.0);
     }
     for t in targets {
         r.eval();
